@@ -1,4 +1,9 @@
 from engine.core import Ob
+from engine import native
+
+
+def replay_rereg(ctx, ob, inputs):
+    return native.run_program(ctx, 'rereg', 'C13/native_rereg.c', extra_sources=('compat_futex.c', 'compat_arch.c', 'wfcqueue.c', 'wfstack.c'))
 
 ARR = ('--arrays-uf-always',)
 OBLIGATIONS = [
@@ -14,6 +19,28 @@ OBLIGATIONS = [
        desc='decode(encode(fct,p)) on a drained queue invokes exactly (fct,p) once, for all 2^128 bit patterns and any last function',
        mode='legacy', defines=('ENCODE_MODE', '_LGPL_SOURCE'), rules=('defer',), cbmc_flags=ARR, unwind=2,
        min_props=10, min_covers=4, timeout=300, functions=('_defer_rcu', 'rcu_defer_barrier_queue')),
+    Ob(name='C13.O4.flush', harness='C13/lifecycle.c', entry='h_flush',
+       desc='_defer_rcu with >= SIZE-2 slots in use: flushes own queue first (rcu_defer_barrier_thread contract), then queues; capacity never exceeded',
+       mode='legacy', replace=('urcu_memb_defer_barrier_thread',), defines=('_LGPL_SOURCE',), rules=('defer',), cbmc_flags=ARR, unwind=1,
+       min_props=10, min_covers=2, functions=('_defer_rcu',)),
+    Ob(name='C13.O4.noflush', harness='C13/lifecycle.c', entry='h_noflush',
+       desc='_defer_rcu below the threshold: no flush, entry fits', mode='legacy', replace=('urcu_memb_defer_barrier_thread',),
+       defines=('_LGPL_SOURCE',), rules=('defer',), cbmc_flags=ARR, unwind=1, min_props=10, min_covers=1, functions=('_defer_rcu',)),
+    Ob(name='C13.O5.barrier_thread', harness='C13/lifecycle.c', entry='h_barrier_thread',
+       desc='rcu_defer_barrier_thread: head snapshot before synchronize_rcu, only entries below it invoked after it; no GP when empty; queue empty afterwards',
+       mode='legacy', replace=('rcu_defer_barrier_queue', 'urcu_memb_synchronize_rcu'), defines=('_LGPL_SOURCE',), rules=('defer',), unwind=1,
+       min_props=10, min_covers=2, functions=('rcu_defer_barrier_thread', '_rcu_defer_barrier_thread')),
+    Ob(name='C13.O5.barrier_all', harness='C13/lifecycle.c', entry='h_barrier_all', tier='B', bound='registry of 2 defer queues',
+       desc='rcu_defer_barrier: every registered queue drained exactly once up to its PRE-grace-period head snapshot while its owner keeps queueing during the grace period',
+       mode='legacy', replace=('rcu_defer_barrier_queue', 'urcu_memb_synchronize_rcu'), defines=('_LGPL_SOURCE',), rules=('defer',), unwind=4,
+       checks=('--bounds-check', '--signed-overflow-check', '--div-by-zero-check'),
+       min_props=5, min_covers=2, functions=('rcu_defer_barrier',)),
+    Ob(name='C13.O6.unregister_register', harness='C13/lifecycle.c', entry='h_unregister_register',
+       desc='rcu_defer_unregister_thread drains the queue after a GP, frees the ring, stops the reclaimer iff registry empty, AND leaves a state satisfying the entry assertions of rcu_defer_register_thread (re-registration)',
+       mode='legacy', replace=('rcu_defer_barrier_queue', 'urcu_memb_synchronize_rcu'), defines=('_LGPL_SOURCE',), rules=('defer',), unwind=3,
+       checks=('--bounds-check', '--signed-overflow-check', '--div-by-zero-check'),
+       min_props=10, min_covers=2, functions=('rcu_defer_unregister_thread', 'rcu_defer_register_thread', 'stop_defer_thread', 'start_defer_thread'),
+       native_custom=replay_rereg),
 ]
 
 META = {
